@@ -13,14 +13,14 @@ PROPS = {
         "trusted_base": [
             "modelled, not verified: the release body codec (encoding/json + gzip + base64; the harness compares decoded releases and round-trips generated releases), client-go fake clientset (object store and label selectors behind the Secret/ConfigMap drivers), namespaces (one namespace), createdAt/modifiedAt label values",
         ],
-        "assumptions": ["refinement theorem proved for the Secret/ConfigMap driver model; the memory driver model is tied by correspondence (all three real drivers are compared step by step with their models and with the spec map) and by the key-parse guard/counterexample theorems"],
+        "assumptions": ["refinement theorems for both driver models: Secret/ConfigMap (exact) and memory (answers equal, lists up to order, for calls whose key parses and names the release it comes with -- the guard the counterexample for names containing \".v\" shows to be necessary); all three real drivers are compared step by step with their models and with the spec map"],
     },
     "C14": {
         "corr": [("schema", {"quick": 1200, "thorough": 25000})],
         "trusted_base": [
             "the validator of one schema is a parameter of the gate theorems; the santhosh-tekuri/jsonschema library is compared with an independent Lean evaluator on the generated schema family only (type, required, enum, numeric bounds, nested properties, additionalProperties:false); $ref, formats, patterns etc. are outside the family",
         ],
-        "assumptions": ["'nothing is sent to the cluster or stored' on rejection is checked here for the dry-run install path; the ordering gate-before-writes of the real install/upgrade is part of the action model (C06/C07)"],
+        "assumptions": ["'nothing is sent to the cluster or stored' on rejection is checked for the dry-run install path and for real upgrades over the simulated API server (every carry-over mode of the values); the ordering gate-before-writes of the real install is part of the action model (C06/C07)"],
     },
     "C15": {
         "corr": [("chartio", {"quick": 700, "thorough": 15000}), ("ignore", {"quick": 1200, "thorough": 30000})],
